@@ -44,6 +44,7 @@ def model_runs(quick):
         return [("cond", cfg_text(["pc_conditional"], maxrows=3, keys=(1, 2), v2s="V2")),
                 ("cond3", cfg_text(["pc_conditional"], maxrows=3, keys=(11, 12, 21), v2s="V1", weights=(1, 3))),
                 ("cross", cfg_text(["pc_grouped_cross", "renyi2"], maxrows=3, keys=(1, 2, 3), v2s="V1")),
+                ("renyi4", cfg_text(["renyi2"], maxrows=4, keys=(1, 2), v2s="V1")),          # two groups of two members: group weights matter
                 ("delta", cfg_text(["pcDelta_grouped", "pcDelta_grouped_cross"], maxrows=4, keys=(1, 2), edges="E3")),
                 # many groups: every cell of the cross tables must belong to ITS pair of groups
                 ("many", cfg_text(["pc_grouped_cross", "pcDelta_grouped_cross"], maxrows=4, keys=(1, 2, 3, 4), edges="E3", mingroups=4))]
@@ -200,6 +201,16 @@ def replay_doc(ctx, doc, n, variant=None):
                 ok = (not math.isnan(got)) and abs(base ** (-got) - res[0] / res[1]) < 1e-9
             if not ok:
                 viol("wrong_value", f"renyi2_entropy(base={base}) = {got} want -log_base({res[0]}/{res[1]})")
+            if opt["by"]:
+                # group weights are forwarded: the entropy is -log_base of pc_conditional with the same weights (checked above against the model)
+                ng = int(df.groupby(by).size().gt(1).sum())
+                if ng >= 2:
+                    w = [1.0 + 2.0 * ((n + j) % 3) for j in range(ng)]
+                    pcw = float(prs.pc_conditional(df, by, on, group_weights=list(w)))
+                    gotw = float(prs.renyi2_entropy(df, on, by=by_arg, base=base, group_weights=list(w)))
+                    wantw = -math.log(pcw) / math.log(base) if pcw > 0 else None
+                    if wantw is not None and not (abs(gotw - wantw) <= 1e-9 * max(1.0, abs(wantw))):
+                        viol("group_weights_not_applied", f"renyi2_entropy(by, group_weights={w}, base={base}) = {gotw} want {wantw}")
         if not before.equals(df):
             viol("argument_mutated", "the caller's table was modified")
     except Exception as e:     # noqa: BLE001
@@ -259,7 +270,7 @@ def run(ctx):
         docs = []
         for doc in ctx.sample([d for d in res.printed if "fn" in d], 25000):
             n += 1
-            if ctx.quick and n % {"cond": 2, "cond3": 6, "cross": 2, "delta": 4, "many": 6}.get(name, 3):
+            if ctx.quick and n % {"cond": 2, "cond3": 6, "cross": 2, "delta": 4, "many": 6, "renyi4": 2}.get(name, 3):
                 continue
             docs.append((n, doc))
         ctx.parallel(docs, _replay_item)
